@@ -8,7 +8,8 @@ ENTRY = dict(
         theorems=["c10_split_barriers", "c10_combine_barriers", "c10_separate", "c10_exactly_one", "c10_members",
                   "c10_commute", "c10_recompose", "c10_union_find", "c10_auto_idle", "c10_keep_idle_wires",
                   "c10_separate_drops_idle", "c10_dx_contract_inhabited", "c10_cuts", "c10_problem_recompose",
-                  "c10_subobs_keys", "c10_subobs_tensor", "c10_separate_refuses", "c10_problem_refuses",
+                  "c10_subobs_keys", "c10_subobs_tensor", "c10_problem_subobs", "c10_separate_total", "c10_cutting_total",
+                  "c10_problem_total_partial", "c10_separate_refuses", "c10_problem_refuses",
                   "c10_idle_observable", "c10_idle_observable_problem", "c10_facts"],
         allowed_axioms=[],
         facts=["value_error_sites", "c10_separate_calls", "c10_problem_calls", "c10_idle_group_removed",
@@ -25,6 +26,8 @@ ENTRY = dict(
                    "interleaving; union-find correctness (same root iff connected), idle <-> None, consecutive labels ordered by "
                    "least qubit; the k-th cut gives two halves with suffix k and the same basis in the right partitions; keys of "
                    "sub-observables = keys of subcircuits (same order) and the tensor product is the original string; refusals. "
+                   "Totality: a valid labelling is always answered (c10_separate_total); for partition_problem totality is PARTIAL "
+                   "(validity of the labelling assumed for the cut circuit, not derived from the input). "
                    "Closed under the global context. The models are run against the implementation on >2000 generated cases per "
                    "quick run (8 streams incl. every helper).",
         level_note=STD_NOTE + "No axioms. partition_problem is modelled with the REPAIRED idle-qubit behaviour F4 (None group removed from "
@@ -47,6 +50,15 @@ ENTRY = dict(
             "QPD placeholders are opaque tagged gates",
             "input circuits do not already contain one-qubit barriers labelled '_uuid=...' (hypothesis no_uuid of the theorems; such a "
             "label is reserved by the implementation and would be merged by _combine_barriers)",
+            "observations outside the property's quantifier (neither compared nor judged): circuit.global_phase is not carried into the "
+            "subcircuits (physically irrelevant for expectation values); instructions with .condition / control flow are not generated; "
+            "user barrier labels are lost when a multi-qubit barrier is split and re-joined; a zero-qubit non-barrier instruction "
+            "(GlobalPhaseGate) raises AssertionError in _separate_instructions_by_partition; automatic labelling of partition_problem "
+            "counts barriers as connections while separate_circuit splits them first (judge accepts either reading)",
+            "call forms: label sequences are passed as list / tuple / str / numpy array and observables as PauliList / list[Pauli] / empty "
+            "collection; the model knows no call form, so all forms must give the same canonical result",
+            "every call is also checked for leaving the caller's circuit (instructions, labels of the caller's gate objects) unchanged; "
+            "a modified input is recorded as a failed call",
             "zero-qubit instructions and clbits outside every classical register are modelled as Crashed (IndexError / AssertionError / "
             "CircuitError in the implementation) and lie outside the property's quantifier",
         ],
